@@ -287,7 +287,7 @@ class LD(Relation):
     coq_case_type = "lcase"
     coq_model = "model_ld"
     coq_imports = ["PearsonQ", "C16_Model"]
-    budget = {"quick": 700, "thorough": 10000}
+    budget = {"quick": 1400, "thorough": 6000}
     max_cases_per_shard = 60
     timeout_per_case = 60
     anchors = [("haptools/ld.py", "calc_ld"), ("haptools/ld.py", "pearson_corr_ld")]
